@@ -278,3 +278,6 @@ void enumerate(const Emit& emit, const std::string&) {
       emit(b);
     }
 }
+
+// no defect of the pinned tree was found behind this property
+void regressions() {}
